@@ -28,7 +28,7 @@ RULE = ("case = random circuit over the exportable set (Ket, Bra, Bits(0), H, S,
         "Discard, pure/mixed scalars, Copy/Match/NOT, bit and qubit swaps) with "
         "preparations, post-selections and measurements at arbitrary depths and "
         "positions, <= 4 live wires (5 for an eighth of the thorough tier: the mixed evaluation costs 16**wires), <= 10 boxes; or a random tket circuit over "
-        "{H,S,T,X,Y,Z,CX,CZ,Rx,Rz,CRz,Measure} on <= 3 qubits / <= 2 bits.  "
+        "{H,S,T,X,Y,Z,CX,CZ,Rx,Rz,CRz,Measure} on <= 4 qubits / <= 2 bits.  "
         "Non-trivial = at least one measurement/post-selection and one "
         "mid-circuit preparation or swap; distinct by repr.")
 SIZES = {"quick": (16, 60), "thorough": (16, 1500)}
@@ -46,7 +46,7 @@ COVER = {"discopy.quantum.tk:to_tk": 0.85,
          "discopy.quantum.tk:from_tk": 0.85,
          "discopy.quantum.tk:from_tk.make_units_adjacent": 0.85,
          "discopy.quantum.tk:from_tk.box_from_tk": 0.85}
-MIN_EVALS = {"quick": {"export-eval-matches-local": 450, "roundtrip-eval": 350,
+MIN_EVALS = {"quick": {"export-eval-matches-local": 450, "roundtrip-eval": 280,
                        "import-eval-matches-tket": 130},
              "thorough": {"export-eval-matches-local": 10000}}
 ASSUMPTIONS = [
@@ -74,10 +74,12 @@ def discard_of_a_bit(monitor, witness):
 
 
 def bits_left_of_bit(monitor, witness):
-    """ prepare_bits both renames the tket registers AND swaps the new wire in
-    the post-processing: a Bits prepared left of an existing bit is corrected
-    twice and comes out in the wrong position. """
-    return monitor in _EXPORT and has(witness, "bits_prepared_left_of_an_existing_bit")
+    """ prepare_bits renames the tket registers to make room at register
+    bits[offset - 1] + 1 AND swaps the new wire in the post-processing, whose
+    domain it extends at the END: as soon as the new register is not the
+    highest one (a bit to its right, or registers out of wire order after an
+    earlier Measure / bit swap) domain order and register order disagree. """
+    return monitor in _EXPORT and has(witness, "bits_prepared_next_to_existing_bits")
 
 
 def counts_ignore_post_processing(monitor, witness):
@@ -111,7 +113,8 @@ def import_post_selection_renumbering(monitor, witness):
     post-selected bit before a measured/prepared one gives AxiomError. """
     return monitor == "roundtrip-eval"\
         and has(witness, "post_selection_before_a_bit_is_created")\
-        and witness.get("exception") in ("AxiomError", "IndexError")
+        and (witness.get("exception") in ("AxiomError", "IndexError")
+             or witness.get("export_agrees") is True)
 
 
 PREDICATES = {
@@ -176,8 +179,9 @@ def layer_facts(left, box, right, seen_bra, seen_classical=False):
         out.add("bit_register_operation_after_a_classical_gate")
     if name == "Discard" and box.dom.count(c.bit):
         out.add("discards_a_bit")
-    if name == "Bits" and not box.is_dagger and right.count(c.bit):
-        out.add("bits_prepared_left_of_an_existing_bit")
+    if name == "Bits" and not box.is_dagger\
+            and (right.count(c.bit) or left.count(c.bit)):
+        out.add("bits_prepared_next_to_existing_bits")
     if name == "Swap" and box.dom == c.bit @ c.bit and seen_bra:
         out.add("bit_swap_after_a_post_selection")
     if seen_bra and (name == "Measure" or name == "Bits"):
@@ -289,7 +293,16 @@ def export_case(rng, ctx):
     except Exception as err:
         ctx.fail("export-counts-match-local", exception=type(err).__name__,
                  message=str(err)[:300], **dict(witness, **facts))
-    # round trip
+    if ("measure" in kinds or "bra" in kinds) and\
+            (kinds.count("ket") >= 2 or "swap" in kinds):
+        ctx.mark(safe_repr(d, 2000))
+    if ctx.index < 24:
+        ctx.sample(circuit=safe_repr(d, 500), tket=repr(tk)[:400], n_bits=n_bits)
+    # round trip (the imported circuit carries EVERY tket qubit and bit as a wire
+    # from top to bottom, and the mixed evaluation costs 16**wires)
+    if tk.n_qubits + tk.n_bits > 5:
+        ctx.count("roundtrip_skipped_too_many_registers")
+        return
     try:
         back = c.Circuit.from_tk(d.to_tk())
     except NotImplementedError:
@@ -317,11 +330,6 @@ def export_case(rng, ctx):
             ctx.fail("roundtrip-eval", exception=type(err).__name__,
                      message=str(err)[:300], where="eval of from_tk(to_tk(c))",
                      imported=lambda: safe_repr(back, 2500), **dict(witness, **facts))
-    if ("measure" in kinds or "bra" in kinds) and\
-            (kinds.count("ket") >= 2 or "swap" in kinds):
-        ctx.mark(safe_repr(d, 2000))
-    if ctx.index < 24:
-        ctx.sample(circuit=safe_repr(d, 500), tket=repr(tk)[:400], n_bits=n_bits)
 
 
 def up_to_axis_permutation(got, expected):
@@ -338,6 +346,8 @@ def up_to_axis_permutation(got, expected):
 def rand_tket(rng):
     pytket = _ENV["pytket"]
     nq, nb = rng.randint(1, 3), rng.randint(0, 2)
+    if rng.random() < .3:          # a gap of two wires needs four qubits
+        nq, nb = 4, rng.randint(0, 1)
     t = pytket.Circuit(nq, nb)
     ops = []
     for _ in range(rng.randint(1, 8)):
